@@ -140,6 +140,18 @@ class Gen:
                 out.append(["callhook", r.below(4), self.id()])
             elif kind == "overflow":
                 out.append(["overflow", self.id()])
+            elif kind == "alias":
+                out.append(["alias", k])
+            elif kind == "usealias":
+                out.append(["usealias", k, self.id()])
+            elif kind == "capcrash2":
+                out.append(["capcrash2", k, self.site(), self.id()])
+            elif kind == "callcap2":
+                out.append(["callcap2", k, self.id()])
+            elif kind == "deepchain":
+                out.append(["deepchain", k, self.id()])
+            elif kind == "probechain":
+                out.append(["probechain", k, self.id()])
             elif kind == "throwbig":
                 out.append(["throwbig", k, self.id()])
             elif kind == "showbig":
@@ -153,7 +165,7 @@ class Gen:
 
 KINDS_W = [("set", 10), ("inc", 10), ("assign", 6), ("chk", 12), ("probe", 10), ("call", 12), ("tryfin", 8), ("trycatch", 6),
            ("fiber", 6), ("fiber2", 4), ("method", 5), ("classcrash", 3), ("deffn", 5), ("callfn", 7), ("defclass", 4),
-           ("useclass", 5), ("deffiber", 4), ("resume", 7), ("import", 6), ("modcall", 6), ("throw", 5), ("poke", 3), ("corelib", 6), ("shadow", 4), ("useshadow", 6), ("capcrash", 5), ("callcap", 7), ("callhook", 7), ("setrange", 3), ("cmprange", 5), ("overflow", 3), ("throwbig", 3), ("showbig", 5)]
+           ("useclass", 5), ("deffiber", 4), ("resume", 7), ("import", 6), ("modcall", 6), ("throw", 5), ("poke", 3), ("corelib", 6), ("shadow", 4), ("useshadow", 6), ("capcrash", 5), ("callcap", 7), ("callhook", 7), ("setrange", 3), ("cmprange", 5), ("overflow", 3), ("throwbig", 3), ("showbig", 5), ("alias", 3), ("usealias", 5), ("capcrash2", 4), ("callcap2", 6), ("deepchain", 2), ("probechain", 4)]
 
 
 def gen_session(seed):
@@ -294,6 +306,24 @@ def render_snip(stmts, uid, stale=()):
             # a callback a module body handed to the registry module - possibly a module whose body failed afterwards
             out.append('import "smreg"; if smreg.hooks.len() > %d { print(("ev", %d, smreg.hooks[%d]())); } else { print(("ev", %d, "nohook")); }' % (
                 st[1], st[2], st[1], st[2]))
+        elif k == "alias":
+            # a built-in function kept under a name of the program's own: gone after a reset like every other global
+            out.append("var al%d = type;" % st[1])
+        elif k == "usealias":
+            out.append('print(("ev", %d, al%d(1) == Num));' % (st[2], st[1]))
+        elif k == "capcrash2":
+            # as capcrash, but the captured variable belongs to a fiber that is WAITING for the fiber in which the run dies
+            out.append("var pd%d = nil; var fo%s = Fiber.new(|| { var cl = [%d]; pd%d = || { cl = [cl[0] + 1]; return cl[0]; }; "
+                       "var fi = Fiber.new(|| { print((\"chk\", \"%s\")); return 1; }); fi.call(); print((\"ev\", %d, pd%d())); return 0; }); fo%s.call();" % (
+                           st[1], u, 60 + st[1], st[1], st[2], st[3], st[1], u))
+        elif k == "callcap2":
+            out.append('print(("ev", %d, pd%d()));' % (st[2], st[1]))
+        elif k == "deepchain":
+            # 70 fibers nested on one chain of callers (more than a fiber has frames); the innermost one throws
+            out.append("var ch%d = []; fn nest%s(n) { if n == 0 { throw \"deep%d\"; } var f = Fiber.new(|| { return nest%s(n - 1); }); ch%d.push(f); return f.call(); } "
+                       "print((\"ev\", %d, \"start\")); nest%s(70);" % (st[1], u, st[2], u, st[1], st[2], u))
+        elif k == "probechain":
+            out.append('{ var done = 0; for f in ch%d { if f.has_finished() { done = done + 1; } } print(("ev", %d, ch%d.len(), done)); }' % (st[1], st[2], st[1]))
         elif k == "throwbig":
             # a long container kept in a global is thrown and nobody catches it (the run's final report prints it)
             out.append("var big%d = [%s]; print((\"ev\", %d, big%d.len())); throw big%d;" % (st[1], ", ".join(str(1000 + j + st[1]) for j in range(90)), st[2], st[1], st[1]))
@@ -364,7 +394,7 @@ def model(ir, faults):
 
     def fresh():
         st.clear()
-        st.update(G={}, funcs={}, classes={}, fibers={}, names=set(), mods={}, shadows={}, caps={}, oneshot=set(), hooks=[], ranges=set(), bigs=set())
+        st.update(G={}, funcs={}, classes={}, fibers={}, names=set(), mods={}, shadows={}, caps={}, oneshot=set(), hooks=[], ranges=set(), bigs=set(), aliases=set(), caps2={}, chains=set())
 
     fresh()
 
@@ -405,7 +435,7 @@ def model(ir, faults):
             continue
         if item[0] == "runc":
             probes.inc("host_runs_function_compiled_earlier")
-            outs.append({"kind": "ok", "events": [[num(compiled[item[1]]), s("compiled-earlier")]]})
+            outs.append({"kind": "ok", "events": [[num(compiled[item[1]]), s("compiled-earlier")], [num(compiled[item[1]]), s("fin")]]})
             continue
         if item[0] == "exec":
             k_, which, nargs = item[1], item[2], item[3]
@@ -609,6 +639,39 @@ def model(ir, faults):
                         ev.append([num(stt[2]), num(ms["mv"])])
                     else:
                         ev.append([num(stt[2]), s("nohook")])
+                elif k == "alias":
+                    st["aliases"].add(stt[1])
+                elif k == "usealias":
+                    if stt[1] not in st["aliases"]:
+                        probes.inc("crash_at:nameerror_top")
+                        raise Crash("NameError")
+                    ev.append([num(stt[2]), {"b": True}])
+                elif k == "capcrash2":
+                    cell = [60 + stt[1]]
+                    st["caps2"][stt[1]] = cell
+                    try:
+                        chk(stt[2], "captured_local_of_waiting_fiber")
+                    except Crash:
+                        probes.inc("run_died_in_callee_fiber_with_open_captured_variable_in_caller")
+                        raise
+                    cell[0] += 1
+                    ev.append([num(stt[3]), num(cell[0])])
+                elif k == "callcap2":
+                    if stt[1] not in st["caps2"]:
+                        probes.inc("crash_at:nameerror_top")
+                        raise Crash("NameError")
+                    st["caps2"][stt[1]][0] += 1
+                    ev.append([num(stt[2]), num(st["caps2"][stt[1]][0])])
+                elif k == "deepchain":
+                    st["chains"].add(stt[1])
+                    ev.append([num(stt[2]), s("start")])
+                    probes.inc("crash_at:bottom_of_70_nested_fibers")
+                    raise Crash("deep%d" % stt[2])
+                elif k == "probechain":
+                    if stt[1] not in st["chains"]:
+                        probes.inc("crash_at:nameerror_top")
+                        raise Crash("NameError")
+                    ev.append([num(stt[2]), num(70), num(70)])
                 elif k == "throwbig":
                     st["bigs"].add(stt[1])
                     ev.append([num(stt[2]), num(90)])
@@ -656,7 +719,7 @@ def programs_of(ir):
         elif item[0] == "exec":
             progs.append({"kind": "exec", "name": "%s%d" % (item[2], item[1]), "args": [3, 4, 5][:item[3]]})
         elif item[0] == "compile":
-            progs.append({"kind": "compile", "source": 'print(("ev", %d, "compiled-earlier"));\n' % item[1]})
+            progs.append({"kind": "compile", "source": 'try { print(("ev", %d, "compiled-earlier")); } finally { print(("ev", %d, "fin")); }\n' % (item[1], item[1])})
         elif item[0] == "runc":
             progs.append({"kind": "run", "slot": item[1]})
         else:
